@@ -380,7 +380,15 @@ func (self *Value) UnsetByPath(path ...Path) error {
 		if err != nil {
 			return err
 		}
-		f := desc.Struct().FieldByKey(p.str())
+		// NOTICE: the name may be undefined in the IDL (or the parent may not be a struct at all)
+		st := desc.Struct()
+		if st == nil {
+			return errValue(meta.ErrDismatchType, "UnsetByPath: a field name addresses a STRUCT only", nil)
+		}
+		f := st.FieldByKey(p.str())
+		if f == nil {
+			return errValue(meta.ErrUnknownField, fmt.Sprintf("field name '%s' is not defined in IDL", p.str()), nil)
+		}
 		p = NewPathFieldId(f.ID())
 	}
 	ret := v.deleteChild(p)
